@@ -2,7 +2,9 @@
 //
 // Bounded-exhaustive exploration over the same generated universes as C11
 // (verif/universe GenFix with the Lite bounds, plus GenScopeShape "shift": universes in which the patch
-// changes the depth or the dev-only reachability of a vulnerable transitive package; npm/relax and Maven/override),
+// changes the depth or the dev-only reachability of a vulnerable transitive package, and GenOriginShape: Maven
+// manifests that declare one artifact under two origins (direct + dependencyManagement / profile, management only);
+// npm/relax and Maven/override),
 // each multiplied by every option variant of universe.OptionVariants (default,
 // ignore list, explicit list, dev dependencies off, depth 1/2, severity
 // threshold, no-introduce), always with MaxUpgrades=1.
@@ -489,6 +491,10 @@ func main() {
 	for _, sh := range u.ScopeShapes {
 		runAll(stOverride, func(emit func(*u.Case)) { b.GenScopeShape(u.Maven, sh, emit) })
 		runAll(stRelax, func(emit func(*u.Case)) { b.GenScopeShape(u.NPM, sh, emit) })
+	}
+	// Maven manifests declaring one artifact under two origins (direct + management / profile, management only)
+	for _, sh := range u.OriginShapes {
+		runAll(stOverride, func(emit func(*u.Case)) { b.GenOriginShape(sh, emit) })
 	}
 	for _, sh := range u.FixShapes {
 		runAll(stOverride, func(emit func(*u.Case)) { b.GenFixShape(u.Maven, sh, emit) })
